@@ -379,6 +379,17 @@ func ExploreConsensus(c *core.Ctx, fam ConsFamilies, rep Report) {
 			}
 		})
 	}
+	if len(fam.Sleepers) > 0 || len(fam.Rounds) > 0 {
+		cd, cn := CorpusDAGs()
+		for i, d := range cd {
+			item++
+			if !c.Mine(item) || c.OutOfBudget() {
+				continue
+			}
+			c.Count("corpus_dags", 1)
+			CheckDAG(c, d, cn[i], rep, cfgs[item%len(cfgs)], 200000)
+		}
+	}
 	for _, sl := range fam.Sleepers {
 		sl := sl
 		GenSleeper(sl, func(i int) bool { return c.Mine(i) && !c.OutOfBudget() }, func(d *lref.DAG, desc string) {
